@@ -5,8 +5,30 @@ harness("h_c16", ["harness/h_c16.cc"], libs=("csg",))
 
 PROPS["C16"] = dict(
     repo_targets=("votca_tools", "votca_csg"),
-    parts=[rc("h_c16", quick=dict(cases=6000, procs=8, args=["--enum", "5"], budget_s=900),
-              thorough=dict(cases=400000, procs=16, args=["--enum", "7"], budget_s=2400))],
-    rule="tbd",
-    assumptions=COMMON_ASSUME,
+    parts=[rc("h_c16", quick=dict(cases=14000, procs=8, args=["--enum", "5"], budget_s=900),
+              thorough=dict(cases=600000, procs=16, args=["--enum", "7"], budget_s=2400))],
+    rule=("One graph generator feeds six subs. EXHAUSTIVE: every labelled simple graph on 1..5 vertices (quick, 1099 graphs per sub) / 1..6 "
+          "vertices plus every labelled 7-vertex graph with non-increasing degree sequence (thorough; >= 1 labelling of each of the 1044 "
+          "isomorphism classes), each with ids from a sparse pool (0..10^6), shuffled edge order/orientation, three attribute modes and a "
+          "pseudo-random relabelling derived from the graph index. GENERATED: 1..4 components drawn from chain, ring, star, random tree, fused "
+          "rings (shared edge), theta graphs (2..4 parallel chains between two junctions, equal lengths allowed), cacti/spiro rings with tails, "
+          "ring with tails, complete K2..K6, G(m,p), 2xk ladders, isolated vertices; up to 40 (24 for bfs/single/equiv) vertices growing with "
+          "the rapidcheck size; vertex numbering, sparse non-contiguous ids (0..10^6), edge insertion order and orientation shuffled; names from "
+          "1..3 symbols or homogeneous, masses from a small set. Oracles: bfs: Dist label of exploreGraph+GraphDistVisitor == std::queue BFS hop "
+          "count for every vertex from every start (<= 6 starts when n > 10), explored set == reachable set; components: "
+          "decoupleIsolatedSubGraphs == union-find partition, every vertex/edge in exactly one part, none invented, node contents kept; single: "
+          "singleNetwork (BF and DF visitor, every start) <=> connected and no isolated vertex; reduce: reduceGraph(g).expandGraph() has exactly "
+          "the vertex set and edge set of g, node contents kept; equiv: BeadStructure built with other ids / bead order / edge order / edge "
+          "orientation is isStructureEquivalent (both directions), and not equivalent after one bead's name changed or mass changed by >= 1 %; "
+          "breakinto: isSingleStructure and breakIntoStructures vs the same references. "
+          "non-trivial (all subs) = >= 2 vertices of maximal degree (> 0), or a cycle, or >= 2 components."),
+    assumptions=COMMON_ASSUME + [
+        "simple graphs only (no self loops, no parallel edges), non-negative ids, >= 1 vertex",
+        "reduce->expand is compared as SETS of vertices and edges (the statement's wording); an edge listed twice by the expanded graph is "
+        "counted as class 'expanded-edge-multiplicity>1', not as a failure",
+        "'different' is asserted only for a changed multiset of names/masses, never for same-multiset non-isomorphic graphs (the structure id "
+        "is not a complete isomorphism invariant and the statement does not claim it)"],
+    exhaustive_in="both",
+    exhaustive_note="small-scope enumeration complete for labelled graphs up to 5 (quick) / 6 (thorough) vertices and for degree-sorted labelled "
+                    "7-vertex graphs (thorough); the generated part is a sample",
 )
